@@ -144,12 +144,18 @@ def run_verus_crate(cname, cdef, outdir, threads, extra_args=()):
             tags, lines = tags_for_function(f["function"], gen_lines, meta, mods)
             res.functions.append(dict(function=f["function"], mode=f.get("mode:", f.get("mode")), ok=f["success"],
                                       us=f.get("time-micros", 0), rlimit=f.get("rlimit", 0), tags=tags, lines=lines))
-    if vr.get("encountered-vir-error") or not vr or (not res.functions and not vr.get("success")):
+    # a by(compute) assertion whose expression evaluates to `false` is a refutation by evaluation (Verus reports it as a VIR-level error and stops
+    # before the SMT phase); it is a verdict about the obligation, not a tool failure
+    COMPUTE_REFUTED = "simplifies to false"
+    refuted = [d for d in diags if COMPUTE_REFUTED in d["message"]]
+    if refuted and len(refuted) == len(diags):
+        pass
+    elif vr.get("encountered-vir-error") or not vr or (not res.functions and not vr.get("success")):
         msgs = "; ".join(d.get("message", "") for d in diags[:5]) or err[-1500:]
         res.status, res.reason = "undecided", "verus front-end / VIR error: " + msgs
         return res
     # front-end (rustc) errors show up as errors without verification: detect by message class
-    hard = [d for d in diags if not VERIF_FAIL_PAT.search(d["message"]) and not RLIMIT_PAT.search(d["message"])]
+    hard = [d for d in diags if not VERIF_FAIL_PAT.search(d["message"]) and not RLIMIT_PAT.search(d["message"]) and COMPUTE_REFUTED not in d["message"]]
     if hard:
         res.status, res.reason = "undecided", "non-verification diagnostic: " + "; ".join(d["message"] for d in hard[:5])
         return res
@@ -172,7 +178,8 @@ def run_verus_crate(cname, cdef, outdir, threads, extra_args=()):
                  for s in d["spans"]]
         res.failures.append(dict(message=d["message"], function=fn, gen_line=L, origin=origin, tags=tags or [],
                                  text=(sp.get("text") or [{}])[0].get("text", "").strip(), spans=other,
-                                 rendered=d.get("rendered", ""), rlimit=bool(RLIMIT_PAT.search(d["message"]))))
+                                 rendered=d.get("rendered", ""), rlimit=bool(RLIMIT_PAT.search(d["message"])),
+                                 computed=COMPUTE_REFUTED in d["message"]))
     if res.failures:
         res.status = "fail"
     elif not vr.get("success"):
@@ -223,7 +230,7 @@ def main(argv):
         rj = json.load(open(replay))
         print(f"replay: obligation {rj.get('obligation')} in crate {rj.get('crate')}")
         crates_all = ["canary", rj["crate"]]
-    with cf.ThreadPoolExecutor(max_workers=4) as ex:
+    with cf.ThreadPoolExecutor(max_workers=max(4, min(len(crates_all), ncpu))) as ex:
         futs = {}
         for c in crates_all:
             cdef = PROPS["crates"][c]
@@ -251,6 +258,7 @@ def main(argv):
     rewrites, assumptions = [], []
     smt_ms, checker_cmds = 0, []
     other_failures = []
+    counted = set()
     for c in crates_all:
         if c == "canary":
             continue
@@ -261,7 +269,7 @@ def main(argv):
             undecided.append(f"crate {c}: {r.reason}")
             continue
         mine = [f for f in r.functions if pid in f["tags"] and f["mode"] in ("exec", "proof")]
-        if not mine:
+        if not mine and not r.failures:
             undecided.append(f"crate {c}: no obligation tagged {pid} was generated (vacuous run)")
         failed_names = set()
         for fl in r.failures:
@@ -275,6 +283,9 @@ def main(argv):
                 other_failures.append(f"{c}:{fl['function']}: {fl['message']} (tags {fl['tags']}, not {pid})")
         for f in mine:
             short = f["function"].split("::")[-1]
+            if f["function"] in counted and f["ok"]:
+                continue  # the same dependency module verified again in another crate of this check: counted once
+            counted.add(f["function"])
             if short in known_obligs:
                 continue  # carries only a clause recorded as a known finding; reported separately, never counted as discharged
             obligations += 1
@@ -314,6 +325,22 @@ def main(argv):
         elif k["status"] == "undecided":
             undecided.append(f"kani {k['harness']}: {k.get('reason','')}")
 
+    # real-code replay of refutations (where a replay driver exists for the property)
+    if pid == "C09" and violations:
+        sys.path.insert(0, os.path.join(HERE, "replay"))
+        import c09 as replay_c09
+        kept = []
+        for (c, fl) in violations:
+            if fl.get("computed"):
+                w, why = replay_c09.witness(fl)
+                if w:
+                    fl["witness"] = w
+                    kept.append((c, fl))
+                else:
+                    undecided.append(f"crate {c}: by(compute) obligation in {fl['function']} refuted ({fl.get('text','')[:120]}) but {why}: the refuted fact is a sufficient condition only - undecided, not reported as a violation")
+            else:
+                kept.append((c, fl))
+        violations = kept
     real_violations = []
     for (c, fl) in violations:
         match = None
@@ -371,11 +398,15 @@ def main(argv):
             witness = None
             if fl.get("kani") and fl["kani"].get("witness"):
                 witness = fl["kani"]["witness"]
+            if fl.get("witness"):
+                witness = fl["witness"]
             json.dump(dict(property=pid, crate=c, obligation=oblig, verifier_message=fl["message"], failed_clause=fl.get("text"),
                            repo_origin=fl.get("origin"), spans=fl.get("spans"), verifier_output=fl.get("rendered"),
                            witness=witness, how_to_replay=f"./check {pid} --replay {rp}"), open(rp, "w"), indent=1)
             tail = "" if witness else " no-failing-input-found"
             print(f"  failed obligation: {c}::{oblig}: {fl['message']} :: {fl.get('text','')}  (repo: {fl.get('origin')})")
+            if witness:
+                print(f"  failing input on the real code: {json.dumps(witness)[:600]}")
             print(f"VIOLATION property={pid} replay={rp}{tail}")
         return 1
     if undecided:
